@@ -129,6 +129,24 @@ func gen(tier string, rng *h.Rng, emit func(string)) {
 		emit(fmt.Sprintf("g2eq %s %s %s %s", a, b, c, d))
 	}
 
+	// GT: the same pairing value computed from different arguments, and different values
+	for i := 0; i < pick(16, 120); i++ {
+		a, b := rng.Big(r), rng.Big(r)
+		c := rng.Big(r)
+		// d = a·b / c mod r
+		d := new(big.Int).Mul(a, b)
+		d.Mul(d, new(big.Int).ModInverse(c, r)).Mod(d, r)
+		switch rng.Intn(4) {
+		case 0:
+			d.Add(d, big.NewInt(1)).Mod(d, r)
+		case 1: // e(aG1, 0) = e(0, dG2) = 1
+			b, c = big.NewInt(0), big.NewInt(0)
+		case 2: // swapped roles e(aG1,bG2) = e(bG1,aG2)
+			c, d = b, a
+		}
+		emit(fmt.Sprintf("gteq %s %s %s %s", a, b, c, d))
+	}
+
 	// ---- 2. G1 byte strings -----------------------------------------------------------------------
 	for bi := 0; bi < pick(2, 6); bi++ {
 		var P bnref.P1
